@@ -41,6 +41,11 @@ def gen_decl(rnd, k, opts=None):
             second[i] = rnd.choice([None] + list(range(0, i)))
     # interface binding: node j's result also available as interface IF_j
     binds = {j for j in range(1, n) if j != structnode and rnd.random() < 0.2}
+    if opts.get("bindmv") and n > 1:
+        # directed shape: a Bind-wrapped provider with two results whose bound value is the FIRST one
+        j = rnd.choice([x for x in range(1, n) if x != structnode])
+        binds.add(j)
+        second.setdefault(j, rnd.choice([None] + list(range(0, j))))
     # values: leaves rendered as kessoku.Value(var)
     values = {j for j in range(1, n) if not deps[j] and j != structnode and j not in second and rnd.random() < 0.2}
     argdeps = {i: [a for a in range(nargs) if rnd.random() < 0.3] for i in range(n)}
@@ -94,6 +99,7 @@ def gen_decl(rnd, k, opts=None):
         else:
             provs[i] = dict(kind="fn", fn="New%sT%d" % (P, i), requires=req, provides=prv, fallible=fall[i], node=i,
                             errtype=("%sErr" % P if rnd.random() < 0.25 else "error"),
+                            nest=rnd.choice(["async_outer", "bind_outer"]),
                             bind=(["%sIF%d" % (P, i)] if i in binds else []), **{"async": asyncs[i]})
     order = list(range(n))
     rnd.shuffle(order)
@@ -114,6 +120,30 @@ def gen_decl(rnd, k, opts=None):
     return d
 
 
+def twin_decl(rnd, d, tag="B"):
+    """A second injector over the SAME provider functions, types and values (rendered once, by the original declaration):
+    other Async marks, possibly another requested type, another order and Set grouping.  One generator invocation then
+    sees the same provider function under different wrappers (C02: marks never change the value; C10: ctx exactly when
+    a NEEDED provider is Async)."""
+    import copy
+    t = copy.deepcopy(d)
+    t["name"] = d["name"] + tag
+    t["shared"] = True
+    for p in t["provs"]:
+        if p["kind"] == "fn" and rnd.random() < 0.5:
+            p["async"] = not p["async"]
+    if rnd.random() < 0.4:
+        cands = [p["provides"][0][0] for p in t["provs"] if p["kind"] == "fn"]
+        if cands:
+            t["ret"] = rnd.choice(cands)
+    def inline(layout):
+        return [it if isinstance(it, int) else ("set", inline(it[1])) for it in layout]
+    t["layout"] = inline(t["layout"])
+    rnd.shuffle(t["layout"])
+    t["meta"] = dict(t["meta"], twin_of=d["name"])
+    return t
+
+
 def systematic_leaves(k0):
     """C05 stream: a root consuming k parameterless providers (every async mask x every order in which the root
     requires them, i.e. every BFS discovery order), plus an injector argument consumed by the root. Returns a generator of decls."""
@@ -132,6 +162,24 @@ def systematic_leaves(k0):
                                       node=j + 1, bind=[], **{"async": mask[j]}))
                 yield dict(name="Init" + P, prefix=P, ret="*%sT0" % P, provs=provs, layout=list(range(len(provs))), kind="valid",
                            meta=dict(n=n + 1, nargs=1, nf=0, structnode=None, second=[], binds=[], values=[]))
+    # the same shape with interface bindings on the leaves, in the nesting Bind[I](Async(Provide(f))): all leaves Async
+    for n in (2, 3):
+        perms = list(itertools.permutations(range(n)))
+        perms = perms if n == 2 else [perms[0], perms[-1]]
+        for bmask in itertools.product([False, True], repeat=n):
+            if not any(bmask):
+                continue
+            for perm in perms:
+                P = "Y%d" % k
+                k += 1
+                provs = [dict(kind="fn", fn="New%sT0" % P, requires=[("%sIF%d" % (P, j + 1) if bmask[j] else "*%sT%d" % (P, j + 1)) for j in perm] + ["%sA0" % P],
+                              provides=[["*%sT0" % P]], fallible=True, node=0, bind=[], **{"async": False})]
+                for j in range(n):
+                    b = ["%sIF%d" % (P, j + 1)] if bmask[j] else []
+                    provs.append(dict(kind="fn", fn="New%sT%d" % (P, j + 1), requires=[], provides=[["*%sT%d" % (P, j + 1)] + b], fallible=False,
+                                      node=j + 1, bind=b, nest="bind_outer", **{"async": True}))
+                yield dict(name="Init" + P, prefix=P, ret="*%sT0" % P, provs=provs, layout=list(range(len(provs))), kind="valid",
+                           meta=dict(n=n + 1, nargs=1, nf=0, structnode=None, second=[], binds=[j + 1 for j in range(n) if bmask[j]], values=[]))
 
 
 def known_finding_decls():
@@ -206,6 +254,26 @@ def mutate_malformed(rnd, d, kind):
         d["kind"] = "cycle"
         # the diagnostic identifies every provider on the cycle by its first provided type: any type of b's first group counts
         d["expect"] = dict(err="cycle", types=[], types_any=sorted({x for g in d["provs"][b]["provides"] for x in g} | {t}))
+        return d
+    if kind in ("cycle_mv", "dup_mv"):
+        # the defect goes through the SECOND result of a Bind-wrapped two-result provider (gen_decl option bindmv)
+        bm = [i for i in fnidx if d["provs"][i].get("bind") and len(d["provs"][i]["provides"]) > 1]
+        if not bm:
+            return None
+        b = rnd.choice(bm)
+        t = d["provs"][b]["provides"][1][0]
+        if kind == "cycle_mv":
+            below = [a for a in fnidx if a == b or b in ancestors(d, a)]
+            a = rnd.choice(below)
+            d["provs"][a]["requires"] = d["provs"][a]["requires"] + [t]
+            d["kind"] = "cycle"
+            d["expect"] = dict(err="cycle", types=[], types_any=sorted({x for g in d["provs"][b]["provides"] for x in g}))
+            return d
+        q = dict(kind="fn", fn="New%sDup" % P, requires=[], provides=[[t]], fallible=False, node=None, bind=[], dup=True, **{"async": rnd.random() < 0.3})
+        d["provs"].insert(rnd.randrange(len(d["provs"]) + 1), q)
+        d["layout"] = list(range(len(d["provs"])))
+        d["kind"] = "dup"
+        d["expect"] = dict(err="dup", types=[t])
         return d
     if kind == "dup":
         # a second provider supplying a type already supplied (function result, bound interface, or struct field)
@@ -569,6 +637,11 @@ def provider_expr(d, p):
             e = "kessoku.Bind[%s](%s)" % (iface, e)
         return e
     e = "kessoku.Provide(%s)" % p["fn"]
+    if p["async"] and p.get("nest") == "bind_outer":
+        e = "kessoku.Async(%s)" % e          # Bind[I](Async(Provide(f))): the other legal nesting
+        for iface in p.get("bind", []):
+            e = "kessoku.Bind[%s](%s)" % (iface, e)
+        return e
     for iface in p.get("bind", []):
         e = "kessoku.Bind[%s](%s)" % (iface, e)
     if p["async"]:
@@ -597,9 +670,10 @@ def render_layout(d, layout, setvars, depth=1):
 def render_decl(d):
     """Go source for one declaration (types, providers, Set vars, the Inject call)."""
     out = []
-    out += go_type_decls(d)
-    for i, p in enumerate(d["provs"]):
-        out.append(render_provider(d, i, p))
+    if not d.get("shared"):
+        out += go_type_decls(d)
+        for i, p in enumerate(d["provs"]):
+            out.append(render_provider(d, i, p))
     setvars = []
     parts = render_layout(d, d["layout"], setvars)
     out += setvars
